@@ -27,7 +27,7 @@ from src.alignment.segments import AlignmentSegment
 from src.correlation.optical_map import OpticalMap
 from src.correlation.peak import Peak
 
-SHAPES_QUICK = ["P", "PP", "PRP", "PQP"]
+SHAPES_QUICK = ["P", "PP", "PRP", "PQP", "PPP"]
 SHAPES_THOROUGH = ["P", "PP", "PRP", "PQP", "PPP", "PRQP", "PQRP"]
 
 
@@ -171,7 +171,7 @@ def level2_configs(tier):
     if tier == "quick":
         for rev in (False, True):
             cfgs.append(dict(KR=3, KQ=3, NS=2, rev=rev, shapes=SHAPES_QUICK, sj="0"))
-        cfgs.append(dict(KR=4, KQ=3, NS=3, rev=False, shapes=["P", "PP", "PQP"], sj="0"))
+        cfgs.append(dict(KR=3, KQ=2, NS=3, rev=False, shapes=["P", "PP"], sj="0"))
     else:
         for rev in (False, True):
             cfgs.append(dict(KR=4, KQ=4, NS=2, rev=rev, shapes=SHAPES_THOROUGH, sj="0"))
